@@ -87,6 +87,13 @@ def handwritten(did):
         E = enum(did + len(out), vs, repr_=rp)
         E["anchor_rs"], E["absvals"], E["repr_mode"] = "0", [], "plain"
         out.append(E)
+    # an ENABLED variant whose payload has a Default that panics: nothing may build it unless its own discriminant is asked for (which the
+    # driver never does for this one)
+    for rp in ("u32", "i64"):
+        vs = [variant("A", disc=1), variant("Heavy", "tuple", [field("panicdef")], disc=77), variant("B"), variant("Off", dis=True), variant("C", "named", [field("u8", "n")], disc=200)]
+        E = enum(did + len(out), vs, repr_=rp)
+        E["anchor_rs"], E["absvals"], E["repr_mode"], E["skip_probe"] = "0", [], "plain", [1]
+        out.append(E)
     # a full byte: 256 variants on repr(u8), every value taken (some disabled); more variants than a byte on repr(u16)
     mk("u8", [("V%d" % k, 0, None, k % 37 == 5) for k in range(256)])
     mk("u16", [("W%d" % k, 0, None, k % 41 == 7) for k in range(300)])
